@@ -437,6 +437,126 @@ def importers_shard(args):
     return agg
 
 
+def importer_kinds_shard(args):
+    """The importing source in every form the tool accepts: a file, -e code, stdin, --ext-code / --tla-code text (no directory
+    of their own: only -J and absolute paths can resolve), --ext-code-file / --tla-code-file (their own directory comes first)
+    x relative / sub-directory / absolute paths x 0-2 -J directories x import / importstr / importbin; and a file that is both
+    a code file and imported is evaluated once."""
+    cases, = args
+    agg = Agg()
+    os.makedirs(common.SCRATCH, exist_ok=True)
+    for (ikind, pkind, jn, kind) in cases:
+        tmp = tempfile.mkdtemp(dir=common.SCRATCH)
+        try:
+            t = Tree(random.Random(0), tmp)
+            here = t.dirs["main"]        # directory of file-like importers
+            for dk in ("main", "lib1"):
+                with open(os.path.join(t.dirs[dk], "x.libsonnet"), "w") as f:
+                    f.write('std.trace("EVAL:%s", %s)' % (dk, jstr(dk)))
+            with open(os.path.join(t.dirs["sub"], "y.libsonnet"), "w") as f:
+                f.write('std.trace("EVAL:sub", "sub")')
+            with open(os.path.join(t.dirs["lib2"], "only2.libsonnet"), "w") as f:
+                f.write('std.trace("EVAL:lib2", "lib2")')
+            spelling = {"rel": "x.libsonnet", "sub": "sub/y.libsonnet", "abs": os.path.join(t.dirs["main"], "x.libsonnet"),
+                        "jonly": "only2.libsonnet"}[pkind]
+            jdirs = [t.dirs[k] for k in ["lib1", "lib2"][:jn]]
+            code = "%s %s" % (kind, jstr(spelling))
+            has_dir = ikind in ("file", "ext_code_file", "tla_code_file")
+            full = t.resolve(spelling, here, jdirs) if has_dir else \
+                (spelling if os.path.isabs(spelling) else next((os.path.join(b, spelling) for b in reversed(jdirs)
+                                                                 if os.path.exists(os.path.join(b, spelling))), None))
+            argv = []
+            for d in jdirs:
+                argv += ["-J", d]
+            stdin = None
+            if ikind == "file":
+                pth = os.path.join(here, "root.jsonnet")
+                with open(pth, "w") as f:
+                    f.write(code)
+                argv += [pth]
+            elif ikind == "exec":
+                argv += ["-e", code]
+            elif ikind == "stdin":
+                argv += ["-"]
+                stdin = code.encode()
+            elif ikind == "ext_code":
+                argv += ["--ext-code", "c=" + code, "-e", "std.extVar('c')"]
+            elif ikind == "tla_code":
+                argv += ["--tla-code", "c=" + code, "-e", "function(c) c"]
+            elif ikind == "ext_code_file":
+                pth = os.path.join(here, "codefile.jsonnet")
+                with open(pth, "w") as f:
+                    f.write(code)
+                argv += ["--ext-code-file", "c=" + pth, "-e", "std.extVar('c')"]
+            else:
+                pth = os.path.join(here, "codefile.jsonnet")
+                with open(pth, "w") as f:
+                    f.write(code)
+                argv += ["--tla-code-file", "c=" + pth, "-e", "function(c) c"]
+            try:
+                p = subprocess.run([common.CLI] + argv, input=stdin, capture_output=True, timeout=60, env=dict(os.environ, NO_COLOR="1"), cwd=tmp)
+            except subprocess.TimeoutExpired:
+                agg.inconc("timeout")
+                continue
+            agg.evaluations += 1
+            desc = {"importer": ikind, "path": pkind, "jpaths": jn, "kind": kind, "argv": [a.replace(tmp, "<tmp>") for a in argv],
+                    "exit": p.returncode, "stderr": p.stderr.decode("utf-8", "replace")[-300:].replace(tmp, "<tmp>")}
+            if full is None:
+                if p.returncode != 1 or p.stdout != b"":
+                    agg.violation({"kind": "missing_import_not_an_error", "importer": ikind, "path": pkind}, desc, None)
+                    continue
+            else:
+                who = os.path.basename(os.path.dirname(full))
+                if kind == "import":
+                    want = who
+                else:
+                    text = open(full, "rb").read()
+                    want = text.decode("utf-8") if kind == "importstr" else [float(b) for b in text]
+                try:
+                    got = json.loads(p.stdout.decode("utf-8")) if p.returncode == 0 else None
+                except ValueError:
+                    got = None
+                if got != want:
+                    agg.violation({"kind": "importer_kind_resolution", "importer": ikind, "path": pkind, "jpaths": jn},
+                                  dict(desc, expected=repr(want)[:100], got=repr(got)[:100]), None)
+                    continue
+                if kind == "import" and p.stderr.decode("utf-8", "replace").count("TRACE: EVAL:") != 1:
+                    agg.violation({"kind": "file_loaded_more_than_once", "importer": ikind}, desc, None)
+                    continue
+            agg.add("importer_kind_cells", (ikind, pkind, jn, kind, full is not None))
+            agg.nontrivial.add(common.h64("ik", ikind, pkind, str(jn), kind))
+        finally:
+            shutil.rmtree(tmp, ignore_errors=True)
+    # a code file that is also imported (by another spelling) is loaded and evaluated once
+    for flag in ("--ext-code-file", "--tla-code-file"):
+        tmp = tempfile.mkdtemp(dir=common.SCRATCH)
+        try:
+            t = Tree(random.Random(0), tmp)
+            lib = os.path.join(t.dirs["main"], "shared.libsonnet")
+            with open(lib, "w") as f:
+                f.write('std.trace("EVAL:shared", {v: 1, sibling: import "sib.libsonnet"})')
+            with open(os.path.join(t.dirs["main"], "sib.libsonnet"), "w") as f:
+                f.write('std.trace("EVAL:sib", 5)')
+            root = os.path.join(t.dirs["main"], "root.jsonnet")
+            with open(root, "w") as f:
+                f.write(('local a = std.extVar("c"), b = import "./shared.libsonnet"; [a.v, b.v, a.sibling, b.sibling]' if flag.startswith("--ext")
+                         else 'function(c) local b = import "sub/../shared.libsonnet"; [c.v, b.v, c.sibling, b.sibling]'))
+            p = subprocess.run([common.CLI, flag, "c=" + lib, root], capture_output=True, timeout=60, env=dict(os.environ, NO_COLOR="1"))
+            agg.evaluations += 1
+            errs = p.stderr.decode("utf-8", "replace")
+            desc = {"flag": flag, "exit": p.returncode, "stdout": p.stdout[:100].decode("utf-8", "replace"), "stderr": errs[-400:].replace(tmp, "<tmp>")}
+            if p.returncode != 0 or json.loads(p.stdout.decode("utf-8")) != [1, 1, 5, 5]:
+                agg.violation({"kind": "code_file_relative_import", "flag": flag}, desc, None)
+            elif errs.count("TRACE: EVAL:shared") != 1 or errs.count("TRACE: EVAL:sib") != 1:
+                agg.violation({"kind": "file_loaded_more_than_once", "importer": flag}, desc, None)
+            else:
+                agg.count("code_file_loaded_once")
+                agg.nontrivial.add(common.h64("codefile", flag))
+        finally:
+            shutil.rmtree(tmp, ignore_errors=True)
+    return agg
+
+
 def run(tier, seed):
     t0 = time.time()
     quick = tier != "thorough"
@@ -449,6 +569,10 @@ def run(tier, seed):
         total.merge(a)
     for a in common.pmap(importers_shard, [(seed, masks[i::16]) for i in range(16)]):
         total.merge(a)
+    ik = [(a, b, c, d) for a in ("file", "exec", "stdin", "ext_code", "tla_code", "ext_code_file", "tla_code_file")
+          for b in ("rel", "sub", "abs", "jonly") for c in (0, 1, 2) for d in ("import", "importstr", "importbin")]
+    for a in common.pmap(importer_kinds_shard, [(ik[i::16],) for i in range(16)]):
+        total.merge(a)
     rule = ("generated directory trees (importer dir, subdir, up to five -J flags over three directories (repeats allowed) incl. one with a space, files "
             "duplicated across them, ./ ../ sub/../ spellings, absolute paths, symlinks to files and directories, "
             "nested imports relative to the imported file, an unforced import cycle, binary/invalid-UTF-8 content) run "
@@ -459,6 +583,8 @@ def run(tier, seed):
             "stdout, error located at the import expression; exhaustive: one name in every subset of {importer dir, "
             "J1, J2, J3} x every sequence of 0-4 -J flags over three directories (repeats included); two importers in "
             "different directories using the same relative string with import/importstr/importbin, in both "
-            "evaluation orders, x every placement x every -J sequence up to 2. distinct_nontrivial = distinct trees / placements decided.")
+            "evaluation orders, x every placement x every -J sequence up to 2; importer kinds: the importing source as file / -e / stdin / --ext-code / "
+            "--tla-code / --ext-code-file / --tla-code-file x relative, sub-directory, absolute and -J-only paths x 0-2 -J x the three "
+            "import kinds, and a code file that is also imported is evaluated once. distinct_nontrivial = distinct trees / placements decided.")
     return common.finish(PROP, tier, seed, total, rule, t0,
                          assumptions=["the Python model of the search (os.path.exists per candidate) is what the property states"])
